@@ -24,7 +24,7 @@ import vlib
 T = "analysis/taint/testdata/"
 B = "analysis/backtrace/testdata/"
 GRAPHS_QUICK = [(T + "tuples", "taint-eager,taint-ondemand"), (T + "globals", "taint-eager,taint-ondemand"),
-                (T + "interfaces", "taint-ondemand"), (T + "closures", "taint-ondemand"),
+                (T + "closures", "taint-ondemand"),
                 (T + "stdlib", "taint-eager"), (B + "closures", "backtrace-ondemand")]
 GRAPHS_THOROUGH = [(T + d, "taint-eager,taint-ondemand") for d in
                    ("tuples", "globals", "interfaces", "closures", "stdlib", "basic", "fields", "parameters", "defers",
@@ -33,8 +33,8 @@ GRAPHS_THOROUGH = [(T + d, "taint-eager,taint-ondemand") for d in
                   [(d, "backtrace-eager,backtrace-ondemand") for d in
                    (B + "backtrace", B + "closures", B + "closures_paper", B + "closures_flowprecise", T + "closures",
                     T + "closures_paper")]
-OPS_QUICK = [T + "closures", T + "globals"]
-OPS_THOROUGH = OPS_QUICK + [T + "tuples", T + "interfaces", T + "fields", T + "closures_paper", T + "basic"]
+OPS_QUICK = [T + "closures"]
+OPS_THOROUGH = OPS_QUICK + [T + "globals", T + "tuples", T + "interfaces", T + "fields", T + "closures_paper", T + "basic"]
 
 CLAUSES = ("edges", "calls", "closures", "globals", "idx", "idxp", "clean")
 
@@ -83,6 +83,89 @@ def gen_program(seed, n):
     return "\n".join(out) + "\n", shapes
 
 
+def gen_shapes():
+    """A fixed program with a call node of every shape: call / defer / go  x  {static function, closure literal (capturing and
+    not), method, bound method, interface invoke, function value}  x  {0, 1, 2 arguments}, every callee user-defined; tainted
+    data reaches every callee (through the arguments, or through a global for the argument-less ones) so that on-demand
+    summarisation builds them; plus globals written in package initialisers, in init functions, in generic instances, and
+    closures created in init."""
+    o = ["package main", "", 'import "fmt"', "",
+         "func source() string  { return fmt.Sprint(\"s\") }", "func sink(x string)     {}", "",
+         "type I interface {\n\tM0()\n\tM1(a string)\n\tM2(a, b string)\n}", "type T struct{ f string }",
+         "func (t T) M0()             { sink(t.f + gT) }", "func (t T) M1(a string)     { sink(a + t.f) }",
+         "func (t T) M2(a, b string)  { sink(a + b) }", "type U struct{}",
+         "func (U) M0()            { sink(gU) }", "func (U) M1(a string)    { sink(a) }", "func (U) M2(a, b string) { sink(b) }",
+         "var gT, gU, gS, gV, gC string", "var sel int", "",
+         "func f0()            { sink(gS) }", "func f1(a string)    { sink(a) }", "func f2(a, b string) { sink(a + b) }",
+         "func h0()            { sink(gV) }", "func h1(a string)    { sink(a + \"h\") }", "func h2(a, b string) { sink(b + a) }",
+         "func pick0() func() {\n\tif sel > 1 {\n\t\treturn f0\n\t}\n\treturn h0\n}",
+         "func pick1() func(string) {\n\tif sel > 1 {\n\t\treturn f1\n\t}\n\treturn h1\n}",
+         "func pick2() func(string, string) {\n\tif sel > 1 {\n\t\treturn f2\n\t}\n\treturn h2\n}",
+         "func pickI() I {\n\tif sel > 2 {\n\t\treturn T{f: source()}\n\t}\n\treturn U{}\n}", ""]
+    calls = []
+    args = {0: "", 1: "x", 2: "x, y"}
+    params = {0: "", 1: "a string", 2: "a, b string"}
+    body = {0: "sink(gC)", 1: "sink(a)", 2: "sink(a + b)"}
+    bodyc = {0: "sink(gC + z)", 1: "sink(a + z)", 2: "sink(a + b + z)"}
+    for kw, kn in (("", "call"), ("defer ", "defer"), ("go ", "go")):
+        for form in ("static", "closure", "closurecap", "method", "bound", "invoke", "value"):
+            for n in (0, 1, 2):
+                name = "s_%s_%s_%d" % (kn, form, n)
+                pre = ["\tx, y := source(), \"y\"", "\t_, _ = x, y",
+                       "\tgT, gU, gS, gV, gC = x, x, x, x, x"]
+                if form == "static":
+                    st = "%sf%d(%s)" % (kw, n, args[n])
+                elif form == "closure":
+                    st = "%sfunc(%s) { %s }(%s)" % (kw, params[n], body[n], args[n])
+                elif form == "closurecap":
+                    pre.append("\tz := x + \"z\"")
+                    st = "%sfunc(%s) { %s }(%s)" % (kw, params[n], bodyc[n], args[n])
+                elif form == "method":
+                    pre.append("\tt := T{f: x}")
+                    st = "%st.M%d(%s)" % (kw, n, args[n])
+                elif form == "bound":
+                    pre.append("\tt := T{f: x}")
+                    pre.append("\tm := t.M%d" % n)
+                    st = "%sm(%s)" % (kw, args[n])
+                elif form == "invoke":
+                    pre.append("\ti := pickI()")
+                    st = "%si.M%d(%s)" % (kw, n, args[n])
+                else:
+                    pre.append("\tfv := pick%d()" % n)
+                    st = "%sfv(%s)" % (kw, args[n])
+                o.append("func %s() {\n%s\n\t%s\n}" % (name, "\n".join(pre), st))
+                calls.append("\t%s()" % name)
+    o += ["",
+          "// globals written in package initialisers, in init functions and in generic instances; closures created in init",
+          "var initX = source()", "var initY = wrapInit(initX)", "func wrapInit(a string) string { return a + \"i\" }",
+          "var initF func() string", "var initG = mkClosure()",
+          "func mkClosure() func() string {\n\tv := source()\n\treturn func() string { return v + initX }\n}",
+          "func init() {\n\tw := source()\n\tinitF = func() string { return w + initY }\n\tgo func() { sink(initX) }()\n\tdefer f0()\n}",
+          "var gGen string",
+          "func setG[A any](a A) A {\n\tgGen = fmt.Sprint(a)\n\treturn a\n}",
+          "func getG[A any](d A) (string, A) { return gGen, d }",
+          "func useInit() {\n\tsink(initX)\n\tsink(initY)\n\tsink(initF())\n\tsink(initG())\n\tsetG[string](source())\n\tsetG[int](1)\n"
+          "\ta, _ := getG[int](0)\n\tsink(a)\n\tb, c := getG[string](\"d\")\n\tsink(b + c)\n}",
+          "", "func main() {\n\tsel = len(fmt.Sprint())\n" + "\n".join(calls) + "\n\tuseInit()\n}"]
+    return "\n".join(o) + "\n"
+
+
+SHAPES_CONFIG = """taint-tracking-problems:
+  - sources:
+      - package: "shapes"
+        method: "^source$"
+    sinks:
+      - package: "shapes"
+        method: "^sink$"
+slicing-problems:
+  - backtracepoints:
+      - package: "shapes"
+        method: "^sink$"
+"""
+ALL_SHAPES = {(k, f, n) for k in ("call", "defer", "go") for f in ("static", "closure", "method", "bound", "invoke", "value")
+              for n in ("0", "1", "2")}
+
+
 GEN_CONFIG = """taint-tracking-problems:
   - sources:
       - package: "gen"
@@ -108,7 +191,7 @@ class World:
     def state(self):
         st = {"kind": {}, "sum": {}, "instr": {}, "glob": {}, "write": set(), "calleeS": {}, "closS": {},
               "out": collections.defaultdict(list), "in": {}, "cs": {}, "rc": {}, "gw": set(), "gr": set(),
-              "constructed": set(), "name": {}, "outsrc": set()}
+              "constructed": set(), "name": {}, "outsrc": set(), "shapes": set(), "shapes_unlinked": set()}
         for lines in self.blocks.values():
             for p in lines:
                 t = p[0]
@@ -135,6 +218,10 @@ class World:
                     st["gw"].add((p[1], p[2]))
                 elif t == "GR":
                     st["gr"].add((p[1], p[2]))
+                elif t == "#":
+                    # "# cs <node> <call|defer|go> <form> <nargs> <user-defined callee> <callee summary>"
+                    if p[6] == "1":
+                        (st["shapes"] if p[7] != "0" else st["shapes_unlinked"]).add((p[3], p[4], p[5]))
                 elif t == "S":
                     st["name"][p[1]] = p[5] if len(p) > 5 else "?"
                     if p[2] == "1":
@@ -231,6 +318,8 @@ def walk_dump(path):
             ops = []
         elif l.startswith("OP "):
             ops.append(l)
+        elif l.startswith("# cs ") and cur is not None:
+            cur.append(l.split())
         elif l.startswith("ENDPROG") or l.startswith("#"):
             continue
         elif cur is not None:
@@ -261,11 +350,22 @@ def run(chk):
     open(os.path.join(gdir, "main.go"), "w").write(src)
     open(os.path.join(gdir, "config.yaml"), "w").write(GEN_CONFIG)
 
+    # the call-shape program: call/defer/go x callee form x #arguments, package initialisers, generic instances
+    sdir = os.path.join(vlib.VERIF, "corpus", "c17", "shapes")
+    if not os.path.exists(os.path.join(sdir, "main.go")):
+        sdir = os.path.join(work, "shapes")
+        os.makedirs(sdir)
+        open(os.path.join(sdir, "go.mod"), "w").write("module shapes\n\ngo 1.22\n")
+        open(os.path.join(sdir, "main.go"), "w").write(gen_shapes())
+        open(os.path.join(sdir, "config.yaml"), "w").write(SHAPES_CONFIG)
+
     graphs = [(os.path.join(vlib.REPO, d), m) for d, m in (GRAPHS_QUICK if quick else GRAPHS_THOROUGH)]
     graphs = [(d, m) for d, m in graphs if os.path.isdir(d)]
     graphs.append((gdir, "taint-eager,taint-ondemand,backtrace-ondemand"))
+    graphs.append((sdir, "taint-eager,taint-ondemand,backtrace-ondemand" if quick else
+                   "taint-eager,taint-ondemand,backtrace-eager,backtrace-ondemand"))
     opsdirs = [os.path.join(vlib.REPO, d) for d in (OPS_QUICK if quick else OPS_THOROUGH)]
-    opsdirs = [d for d in opsdirs if os.path.isdir(d)] + [gdir]
+    opsdirs = [d for d in opsdirs if os.path.isdir(d)] + [gdir, sdir]
     every, maxsnaps = (3, 6) if quick else (1, 400)
     jobs = []
     for i, (d, m) in enumerate(graphs):
@@ -304,6 +404,8 @@ def run(chk):
     found_concrete = False
     tie_broken = []
     idx_seen = []
+    shapes_cov = collections.defaultdict(set)
+    shapes_unl = collections.defaultdict(set)
 
     def report(clause, items, d, mode, k, label, w, ops, outpath):
         """a consistency clause fails on a real graph: concrete violation with replay"""
@@ -334,9 +436,9 @@ def run(chk):
             f.write("\nre-run: cd %s && go build -tags verif -o %s ./cmd/c17dump && %s %s ... %s | %s\n"
                     "(CHECK lines: 1 = clause holds on that snapshot)\n" % (vlib.HARNESS, vlib.BIN + "/", dump,
                                                                           "ops -seed %d" % chk.seed if ops else "graphs -modes " + mode, d, model))
-        if os.path.dirname(d) == work or d == gdir:
-            shutil.copy(os.path.join(gdir, "main.go"), rd)
-            shutil.copy(os.path.join(gdir, "config.yaml"), rd)
+        if d in (gdir, sdir):
+            for fn in ("main.go", "config.yaml", "go.mod"):
+                shutil.copy(os.path.join(d, fn), rd)
         # the blocks of the summaries involved
         with open(os.path.join(rd, "snapshot.txt"), "w") as f:
             for bk, lines in sorted(w.blocks.items()):
@@ -384,6 +486,9 @@ def run(chk):
             stats["callsite_links_checked"] += len(st["calleeS"])
             stats["closure_links_checked"] += len(st["closS"])
             stats["global_locations_checked"] += len(st["gw"]) + len(st["gr"])
+            if dd == sdir and kind == "graphs" and k >= 1:
+                shapes_cov[mode] |= st["shapes"]
+                shapes_unl[mode] |= st["shapes_unlinked"]
             if ext is None or any(ext[c] != mine[c] for c in CLAUSES):
                 tie_broken.append(("checker-disagreement", "extracted validators say %s, independent re-check says %s on %s %s snapshot %d"
                                    % (ext, mine, dd, mode, k), outpath))
@@ -462,6 +567,13 @@ def run(chk):
         if chk.violation(key, "forward traversal connects source%d to sink%d, backward traversal from sink%d misses it "
                          "(shape %s, %d/%d runs)" % (i, i, i, shape, cnt, nfb), rd):
             found_concrete = True
+
+    for mode in sorted(shapes_cov):
+        stats["call_shapes_linked_" + mode] = len(shapes_cov[mode] & ALL_SHAPES)
+        miss = sorted(ALL_SHAPES - shapes_cov[mode])
+        if miss:
+            chk.notes.append("call shapes without a linked user-defined callee in %s: %s" % (mode, miss[:12]))
+    stats["call_shapes_expected"] = len(ALL_SHAPES)
 
     if not idx_seen and not fb_miss:
         chk.notes.append("stale_known_finding: in-edge-single-index not exhibited in this run")
